@@ -12,3 +12,175 @@ def c19(ctx):
              "Linter::run / standard_passes / cli::linter::lint is discharged, in both profiles")
     n = cr.census_for(ctx, "C19.R1", "C19", "linting", cr.roots_lint, only=in_linter)
     rep.floor("C19.R1", n, 12, "census sites (both profiles)")
+
+
+from .. import kind, kindtables as kt, tables  # noqa: E402
+from ..kind import E, is_e, c as kc  # noqa: E402
+from ..core import callee_def, op_local, op_place  # noqa: E402
+from ..flow import origins  # noqa: E402
+from .common import find_method, is_callee, flows_into  # noqa: E402
+from .c03 import kind_deep  # noqa: E402
+from .c06 import type_closure, INTERIOR  # noqa: E402
+
+LB = "linter::ListBuilder"
+MP = "linter::passes::missed_pronoun::MissedPronounPassImpl"
+VE = "analysis::visit::VisitExpr"
+OPT = "std::option::Option"
+
+
+def structure_rules(ctx):
+    F, rep = ctx.F, ctx.rep
+    rep.rule("C19.R2", "the program cannot be modified: Linter::run takes &Program and the closure of Program (through Vec, Box, Arc, Option and "
+             "the fields of the syntax tree) contains no interior mutability")
+    rep.rule("C19.R3", "ordering: postprocess sorts with the stable slice::sort_by_key on the line; passes are combined in iter_mut() order "
+             "(no reversal); ListBuilder::combine keeps everything, self first: KIND gives the 3x3 table for the early returns, and in the "
+             "merging part every push / extend appends elements of `other` to a vector that comes from `self`")
+    rep.rule("C19.R4", "repeated-identifier rule: match_or_update reports exactly when it is not visiting a callee name and the name equals the "
+             "previous mention, and records the name as previous mention otherwise (KIND table over the flag x {no previous, equal, "
+             "different}); visit_function_call sets the flag only around the callee name and clears it before the arguments; the "
+             "diagnostic carries the line of the mention")
+    # ---- R2
+    run = F.fn("linter::Linter::run")
+    if run is None:
+        rep.fail("C19.R2", "anchor", "linter::Linter::run not found")
+    else:
+        rep.analysed(run)
+        ty = run.local_ty(2)
+        ok = ty.kind() == "ref" and not ty.d.get("mut") and ty.inner().adt() == "frontend::ast::Program"
+        rep.ob("C19.R2", "run-takes-shared-program", ok, "" if ok else "Linter::run takes %s" % ty.s, run.loc(), how="&Program")
+        if ok:
+            clo = type_closure(F, ty.inner())
+            bad = [t.s for t in clo.values() if (t.kind() == "adt" and t.adt().startswith(INTERIOR)) or t.kind() in ("ptr",)]
+            rep.ob("C19.R2", "program-has-no-interior-mutability", not bad, "" if not bad else "the syntax tree contains %s: a pass could change the program through &Program" % bad[0], run.loc(),
+                   how="%d types in the closure of Program" % len(clo))
+        revs = [1 for b in F.with_closures(run) for bi, t in b.calls() if t["callee"].get("name") in ("rev", "sort", "sort_by", "sort_unstable") and "indirect" not in t["callee"]]
+        ca = [(bi, t) for bi, t in run.calls() if callee_def(t) == "analysis::visit::combine_all"]
+        im = [(bi, t) for bi, t in run.calls() if t["callee"].get("name") == "iter_mut" and "indirect" not in t["callee"]]
+        ok = not revs and len(ca) == 1 and len(im) == 1 and flows_into(run, im[0][0], ca[0][1]["args"][0])
+        rep.ob("C19.R3", "passes-in-order", ok, "" if ok else "the pass results are not combined in the order of the pass list", run.loc(), how="combine_all(passes.iter_mut().map(run pass))")
+        pp = [(bi, t) for bi, t in run.calls() if callee_def(t) == "linter::postprocess"]
+        ok = len(pp) == 1 and pp[0][1]["dest"]["l"] == 0
+        rep.ob("C19.R3", "result-is-postprocessed", ok, "" if ok else "Linter::run does not return postprocess(all diagnostics)", run.loc(), how="postprocess(..)")
+    pf = F.fn("linter::postprocess")
+    if pf is None:
+        rep.fail("C19.R3", "anchor::postprocess", "linter::postprocess not found")
+    else:
+        rep.analysed(pf)
+        sorts = [(bi, t) for bi, t in pf.calls() if t["callee"].get("name", "").startswith(("sort", "sorted")) and "indirect" not in t["callee"]]
+        ok = len(sorts) == 1 and sorts[0][1]["callee"]["name"] == "sort_by_key"
+        key_ok = False
+        if ok:
+            cl = pf.local_ty(op_local(sorts[0][1]["args"][1])).peel_refs() if op_local(sorts[0][1]["args"][1]) is not None else None
+            cf = F.fn(cl.d.get("closure", "")) if cl is not None and cl.kind() == "closure" else None
+            if cf is not None:
+                rs = tables.result_of_arm(cf, 0)
+                key_ok = bool(rs) and all(r[0] == "param" and r[2][-1:] == ("line",) for r in rs)
+        rep.ob("C19.R3", "stable-sort-by-line", ok and key_ok, "" if ok and key_ok else "the report is not sorted with the stable sort_by_key(|d| d.line): ties would not keep pass order", pf.loc(), how="sort_by_key(|diag| diag.line)")
+    # ListBuilder::combine
+    comb = None
+    for p, fn in F.fns.items():
+        if p.startswith("<linter::ListBuilder<T> as analysis::visit::Combine>::combine") and fn.kind != "closure":
+            comb = fn
+    if comb is None:
+        rep.fail("C19.R3", "anchor::combine", "impl Combine for ListBuilder not found")
+    else:
+        rep.analysed(comb)
+        I = kind.Interp(F)
+        shapes = {"Empty": E(LB, "Empty"), "One": E(LB, "One", ("sym", "x")), "List": E(LB, "List", ("sym", "xs"))}
+
+        def ren(v, who):
+            if v[2] == "Empty":
+                return v
+            return E(LB, v[2], ("sym", who + "." + v[3][0][1]))
+        rep.exhaustive["listbuilder_combine"] = True
+        for sa_, a in shapes.items():
+            for sb_, b in shapes.items():
+                outs = {kt.term(o.ret) for o in I.run(comb, [ren(a, "self"), ren(b, "other")])}
+                key = "combine::%s+%s" % (sa_, sb_)
+                if sb_ == "Empty":
+                    want = {kt.term(ren(a, "self"))}
+                    ok = outs == want
+                elif sa_ == "Empty":
+                    want = {kt.term(ren(b, "other"))}
+                    ok = outs == want
+                else:
+                    want = {"List(..)"}
+                    ok = all(o.startswith("List(") for o in outs) and bool(outs)
+                rep.ob("C19.R3", key, ok, "" if ok else "combine(%s, %s) yields %s, expected %s" % (sa_, sb_, sorted(outs), sorted(want)), comb.loc(), how=str(sorted(want)))
+        # merging part: appended elements come from `other`, the vector appended to comes from `self`
+        n_app = 0
+        for bi, t in comb.calls():
+            name = t["callee"].get("name") if "indirect" not in t["callee"] else None
+            if name not in ("push", "extend", "append", "insert", "push_front", "extend_from_slice"):
+                continue
+            n_app += 1
+            dst = kind_deep(comb, t["args"][0])
+            src = kind_deep(comb, t["args"][-1])
+            d_self = any(d[0] == "param" and d[1] == 1 for d, _ in dst) and not any(d[0] == "param" and d[1] == 2 for d, _ in dst)
+            s_other = any(d[0] == "param" and d[1] == 2 for d, _ in src) and not any(d[0] == "param" and d[1] == 1 for d, _ in src)
+            ok = d_self and s_other and name in ("push", "extend", "append", "extend_from_slice")
+            rep.ob("C19.R3", "combine::appends-other-after-self#%d" % n_app, ok,
+                   "" if ok else "combine appends with %s: destination from %s, elements from %s: diagnostics of `self` would not stay in front of those of `other`" % (
+                       name, "self" if d_self else "other/unknown", "other" if s_other else "self/unknown"), comb.loc(t["line"]), how="self's vector .%s(other's elements)" % name)
+        rep.floor("C19.R3.appends", n_app, 2, "append operations in combine")
+    # ---- R4
+    mu = F.fn(MP + "::match_or_update")
+    if mu is None:
+        rep.fail("C19.R4", "anchor::match_or_update", "MissedPronounPassImpl::match_or_update not found")
+    else:
+        rep.analysed(mu)
+
+        def m_eq(I_, f, st, t, args, depth):
+            yield kc(True), None, ((("same-name",), "T"),)
+            yield kc(False), None, ((("same-name",), "F"),)
+        I = kind.Interp(F, models={"std::cmp::PartialEq::eq": m_eq})
+        rep.exhaustive["match_or_update"] = True
+        for flag in (True, False):
+            for last in ("None", "Some"):
+                lastv = E(OPT, "None") if last == "None" else E(OPT, "Some", ("sym", "prev"))
+                selfv = E(MP, "MissedPronounPassImpl", lastv, kc(flag))
+                res = set()
+                for o in I.run(mu, [selfv, ("sym", "name")]):
+                    same = [tk for ct, tk in o.conds if ct == ("same-name",)]
+                    after = o.refs.get(1)
+                    new_last = kt.term(after[3][0]) if after and is_e(after, MP) else "?"
+                    res.add((same[0] if same else "-", kt.term(o.ret), new_last))
+                key = "match_or_update::in_call=%s,last=%s" % (flag, last)
+                if last == "None":
+                    want = {("-", "False", "Some(name)")}
+                elif flag:
+                    want = {("T", "False", "Some(name)"), ("F", "False", "Some(name)"), ("-", "False", "Some(name)")}
+                    res = {r for r in res}
+                else:
+                    want = {("T", "True", "Some(prev)"), ("F", "False", "Some(name)")}
+                ok = res == want or (flag and last == "Some" and res <= want and res)
+                rep.ob("C19.R4", key, bool(ok), "" if ok else "match_or_update gives %s, the rule is %s" % (sorted(res), sorted(want)), mu.loc(), how=str(sorted(want)))
+    vfc = find_method(F, VE, "visit_function_call", MP)
+    vvn = find_method(F, VE, "visit_variable_name", MP)
+    if vfc is None or vvn is None:
+        rep.fail("C19.R4", "anchor::visitors", "MissedPronounPassImpl::visit_function_call / visit_variable_name not found")
+    else:
+        rep.analysed(vfc)
+        from ..guards import g_in_function_call
+        ok, why = g_in_function_call(ctx, F, vfc, None)
+        rep.ob("C19.R4", "flag-only-around-callee-name", ok, why, vfc.loc(), how="true; visit name; false; then the arguments")
+        rep.analysed(vvn)
+        mcs = [(bi, t) for bi, t in vvn.calls() if callee_def(t) == MP + "::match_or_update"]
+        thens = [(bi, t) for bi, t in vvn.calls() if is_callee(t, "core::bool::<impl bool>::then")]
+        ok = len(mcs) == 1 and len(thens) == 1 and flows_into(vvn, mcs[0][0], thens[0][1]["args"][0])
+        line_ok = False
+        for cf in F.closures_of(vvn):
+            for bi, t in cf.calls():
+                if t["callee"].get("name") == "line":
+                    line_ok = True
+        rep.ob("C19.R4", "diag-iff-match-at-line-of-mention", ok and line_ok, "" if ok and line_ok else "visit_variable_name does not build the diagnostic exactly when match_or_update reports, with n.line()", vvn.loc(),
+               how="match_or_update(n).then(|| build_diag(n, n.line()))")
+
+
+_c19_census = c19
+
+
+@prop("C19")
+def c19_full(ctx):
+    _c19_census(ctx)
+    structure_rules(ctx)
